@@ -43,6 +43,11 @@ DELIM_FORMATS = [
     RS + "{file_name}" + GS + "{error.message}" + GS + "{error.validator}" + US,
     RS + "{file_name}" + GS + "{error.message}" + US + "\n",
     RS + "{error.validator}" + GS + "{file_name}" + GS + "{error.message}" + GS + "{error.instance}" + US,
+    # formats are used VERBATIM: backslashes, non-ASCII text, conversions, width specs, doubled braces, a
+    # trailing backslash - none of it is an escape sequence or a template of anything but str.format
+    RS + "\u2717 C:\\temp\\new {file_name}" + GS + "{error.message}" + US,
+    RS + "{file_name}" + GS + "{error.message!r}\\n\\t" + US + "\\",
+    RS + "{error.validator!s:>14}" + GS + "{file_name}" + GS + "{{literal}} %s \\u2717 \\x41" + GS + "{error.message}" + US,
 ]
 CLAIMED_STATES = ("ok", "missing", "unparsable", "undecodable")
 
@@ -465,7 +470,7 @@ def execute(scn):
             rest = stderr
             if fmt and fmt in DELIM_FORMATS:
                 import re
-                recs = re.findall(RS + "[^" + RS + US + "]*" + US + "\n?", stderr)
+                recs = re.findall(RS + "[^" + RS + US + "]*" + US + "\\\\?\n?", stderr)
                 rest = stderr
                 for r in recs:
                     rest = rest.replace(r, "", 1)
@@ -586,7 +591,7 @@ def crosscheck(scn, res):
             with open(os.path.join(tmp, p), "wb") as f:
                 f.write(unb64(ent["bytes"]))
         stdin = unb64(scn["fs"]["<stdin>"]["bytes"]) if scn["stdin"] else b""
-        env = dict(os.environ, PYTHONPATH=os.environ.get("DSIM_REPO", "/repo"), PYTHONIOENCODING="utf-8",
+        env = dict(os.environ, PYTHONPATH=os.environ.get("DSIM_REPO", "/repo"), PYTHONIOENCODING="utf-8", PYTHONUTF8="1",
                    LC_ALL="C.UTF-8", LANG="C.UTF-8")
         p = subprocess.run([sys.executable, "-m", "jsonschema"] + argv_of(scn), cwd=tmp, env=env, input=stdin,
                            stdout=subprocess.PIPE, stderr=subprocess.PIPE, timeout=60)
